@@ -11,7 +11,8 @@ from harness.streams.c07 import gen_areas
 
 
 def extract(arg):
-    traces, area_wkts, t = arg
+    traces, area_wkts, t = arg[:3]
+    zmask = arg[3] if len(arg) > 3 else None
     import_fractopo()
     import geopandas as gpd
     from shapely import wkt
@@ -19,7 +20,11 @@ def extract(arg):
 
     from fractopo.branches_and_nodes import branches_and_nodes
 
-    tr = gpd.GeoDataFrame(geometry=[LineString(l) for l in traces])
+    geoms = [LineString(l) for l in traces]
+    if zmask:
+        # traces digitised with elevation values: the branches are those of the plan view, to the last digit
+        geoms = [LineString([(x, y, 100.0 + j) for j, (x, y) in enumerate(l)]) if z else g for g, l, z in zip(geoms, traces, zmask)]
+    tr = gpd.GeoDataFrame(geometry=geoms)
     ar = gpd.GeoDataFrame(geometry=[wkt.loads(w) for w in area_wkts])
     try:
         b, n = branches_and_nodes(tr, ar, t, already_clipped=False)
@@ -99,7 +104,7 @@ def f25_region(ctx, c, b) -> bool:
 
 
 def judge(ctx, cases, res, stream):
-    outs_args = [(c["traces"], c["area_wkts"], c["t"]) for c in cases]
+    outs_args = [(c["traces"], c["area_wkts"], c["t"], c.get("z")) for c in cases]
     with mp.get_context("fork").Pool(16, maxtasksperchild=16) as pool:
         outs = pool.map(extract, outs_args, chunksize=2)
     reqs, idx = [], []
@@ -159,15 +164,20 @@ def s04_invalid(ctx):
 
 def s04_valid(ctx):
     import_fractopo()
-    res = StreamResult("S04-valid-length", rule="valid maps (Lean oracle): all of the above plus total branch length = exact length of the traces inside the area; "
+    res = StreamResult("S04-valid-length", rule="valid maps (Lean oracle; also maps 1/4096 the size with threshold 1e-6 and Z values on most traces): all of the above plus total branch length = exact length of the traces inside the area; "
                        "non-trivial = every map")
     rng = rng_for(ctx.seed, "S04v")
-    t = 0.01
-    maps, _ = valid_maps(ctx, rng, budget(ctx.tier, 40, 800), F(t))
     cases = []
-    for traces, area, kind, ar in maps:
-        cases.append({"stream": "S04-valid-length", "traces": [[(float(x), float(y)) for x, y in l] for l in traces], "area_wkts": [area.wkt], "areas": area_rows([area]),
-                      "t": t, "kind": kind, "valid": True})
+    # second setting: a map a few 1e-3 across with a threshold of 1e-6 (coordinates need all their digits), Z values on two traces in three
+    for unit, t, with_z, n in ((F(1), 0.01, False, budget(ctx.tier, 40, 800)), (F(1, 4096), 0.000001, True, budget(ctx.tier, 12, 200))):
+        maps, _ = valid_maps(ctx, rng, n, F(t), unit=unit)
+        for traces, area, kind, ar in maps:
+            c = {"stream": "S04-valid-length", "traces": [[(float(x), float(y)) for x, y in l] for l in traces], "area_wkts": [area.wkt], "areas": area_rows([area]),
+                 "t": t, "kind": kind, "valid": True}
+            if with_z:
+                c["z"] = [i % 3 != 0 for i in range(len(traces))]
+                res.distribution["fine_maps_with_z_values"] = res.distribution.get("fine_maps_with_z_values", 0) + 1
+            cases.append(c)
     judge(ctx, cases, res, "S04-valid-length")
     return res
 
